@@ -93,7 +93,15 @@ def fam_trailing():
         return ("y", (a if a > 1 else None), (b, a + b)) if a < 9 else ("stop",)
     return ("trailing", src, 2, step, True)
 
-FAMILIES = [fam_rebind(), fam_rebind_norecur(), fam_nilyield(), fam_trailing(), fam_counter(), fam_fib(), fam_local(), fam_outer(), fam_norecur(), fam_infinite(), fam_twoyields(), fam_kw()]
+def fam_stop_by_later_yield():
+    # the first yield gives the value; a LATER guarded yield still decides whether the step ends with StopIterErr
+    src = "<{|i| yield i * i; yield i if i < %d; recur(i + 1)}>" % N
+    def step(s):
+        i, = s
+        return ("y", i * i, (i + 1,)) if i < N else ("stop",)
+    return ("stop_by_later_yield", src, 1, step, True)
+
+FAMILIES = [fam_stop_by_later_yield(), fam_rebind(), fam_rebind_norecur(), fam_nilyield(), fam_trailing(), fam_counter(), fam_fib(), fam_local(), fam_outer(), fam_norecur(), fam_infinite(), fam_twoyields(), fam_kw()]
 
 
 # programs with a hand-derived answer: what the NEXT round sees is exactly what `new` / the most recent `recur` bound, in the
